@@ -4,6 +4,7 @@ import (
 	"fmt"
 	"math"
 	"reflect"
+	"runtime"
 	"runtime/debug"
 	"strconv"
 	"strings"
@@ -79,6 +80,11 @@ func c16Run(x *core.Ctx) {
 			text = c16Sparse(r, toks)
 			x.Count("sparse_documents")
 		}
+		if i%6 >= 4 {
+			// ignored characters in front of the first token (byte order marks, blank lines, commas): not tokens
+			text = r.Pick("\ufeff", "\ufeff\ufeff", "\n\n", ",,", "\ufeff\r\n") + text
+			x.Count("documents_with_leading_ignored_characters")
+		}
 		c := core.NewCase("limits", "grammar", g, "src", text)
 		x.Do(c, func() { c16Check(x, c) })
 		if i%7 == 3 {
@@ -135,7 +141,7 @@ func c16Run(x *core.Ctx) {
 					if k%x.NShards != x.Shard {
 						continue
 					}
-					if x.Quick() && (k/x.NShards)%3 != 0 {
+					if x.Quick() && (k/x.NShards)%3 != 0 && !strings.Contains(p, `"""`) {
 						continue
 					}
 					c := core.NewCase("flood", "piece", p, "pre", pre, "size", strconv.Itoa(sz), "limit", strconv.Itoa(lim))
@@ -331,6 +337,11 @@ func c16Limits(x *core.Ctx, g, text string) {
 	for _, L := range limits {
 		a := c16Parse(g, src, L, true)
 		x.Count("limit_parses")
+		if src.Input != text || src.Name != "c16.graphql" || src.BuiltIn {
+			// the source is the caller's: earlier trees point at it, and the caller may parse it again
+			x.Violate("caller-source-rewritten:"+g, fmt.Sprintf("limit %d: the Source passed in now holds %d bytes named %q", L, len(src.Input), src.Name), fmt.Sprintf("the %d bytes and the name it was given", len(text)))
+			src.Input = text
+		}
 		if a.err == nil && a.isNil {
 			x.Violate("result-shape:"+g, fmt.Sprintf("limit %d: nil document and nil error", L), "a document or an error")
 		}
@@ -468,11 +479,14 @@ func c16Flood(x *core.Ctx, s string, lim int) {
 		verifhook.Budget = 64*int64(lim+2) + 4096
 		verifhook.Mode = verifhook.ModeCount
 		var err error
+		var m0, m1 runtime.MemStats
+		runtime.ReadMemStats(&m0)
 		if g == "query" {
 			_, err = parser.ParseQueryWithTokenLimit(src, lim)
 		} else {
 			_, err = parser.ParseSchemaWithLimit(src, lim)
 		}
+		runtime.ReadMemStats(&m1)
 		verifhook.Mode = verifhook.ModeOff
 		verifhook.Budget = 0
 		if err == nil {
@@ -488,6 +502,14 @@ func c16Flood(x *core.Ctx, s string, lim int) {
 		// every flood piece is at most 16 bytes per token, and the pre-amble at most 16 bytes
 		if bound := int64(2*lim+8)*16 + 32; lastAt > bound {
 			x.Violate("work:bytes-scanned:flood:"+g, fmt.Sprintf("limit %d: scanned to byte %d of %d", lim, lastAt, len(s)), fmt.Sprintf("at most %d", bound))
+		}
+		// memory: what was allocated while parsing is bounded by the tokens that may be read (every flood piece is a few bytes
+		// per token), not by the size of the input behind them
+		alloc := int64(m1.TotalAlloc - m0.TotalAlloc)
+		x.Max("flood_alloc_bytes", alloc)
+		x.Max(fmt.Sprintf("flood_alloc_bytes_at_limit_%d", lim), alloc)
+		if bound := int64(2*lim+8)*4096 + 256<<10; alloc > bound {
+			x.Violate("work:memory:flood:"+g, fmt.Sprintf("limit %d: %d bytes allocated on %d bytes of input", lim, alloc, len(s)), fmt.Sprintf("at most %d (4 KiB per token that may be read + 256 KiB)", bound))
 		}
 		x.Count("work_checked")
 	}
